@@ -12,6 +12,18 @@ package portforwarding
 //@   ensures err == nil ==> addr != nil
 // (C18) TCP and UDP addresses are decoded with net.SplitHostPort (the inverse of the encoder's net.JoinHostPort)
 //@   ensures err == nil && !typeis(addr, "*net.UnixAddr") ==> called(net.SplitHostPort) && resultof(net.SplitHostPort, err) == nil
+// ... and the port with strconv.Atoi applied to exactly the port string SplitHostPort returned (the inverse of the
+// encoder's strconv.Itoa on the whole int range; a narrower parser would refuse ports the encoder emits)
+//@   ensures err == nil && !typeis(addr, "*net.UnixAddr") ==> callcount(strconv.Atoi) == 1 && same(argof(strconv.Atoi, s), resultof(net.SplitHostPort, port))
+// (C18, byte-stream model of the prelude) the decoder reads the layout the encoder below produces: network type, forward
+// type, 16-bit big-endian address length, then exactly that many address bytes - which, for TCP and UDP, are the string
+// handed to net.SplitHostPort - and consumes nothing more
+//@   modifies spos
+//@   let p = spos[ref(r)]
+//@   ensures err == nil ==> fwdType == sbyte(ref(r), p + 1) && (sbyte(ref(r), p) == 1 || sbyte(ref(r), p) == 2 || sbyte(ref(r), p) == 3)
+//@   ensures err == nil ==> spos == update(old(spos), ref(r), p + 4 + int(be16(sbyte(ref(r), p + 2), sbyte(ref(r), p + 3))))
+//@   ensures err == nil && sbyte(ref(r), p) != 3 ==> len(argof(net.SplitHostPort, hostport)) == int(be16(sbyte(ref(r), p + 2), sbyte(ref(r), p + 3))) &&
+//@        bytes(argof(net.SplitHostPort, hostport)) == srange(ref(r), p + 4, len(argof(net.SplitHostPort, hostport)))
 
 // (C18) a forwarding request is: network type, forward type, 16-bit big-endian address length, address string.
 // An address that does not fit the length field is refused (nil), not wrapped; for TCP and UDP the address
@@ -23,3 +35,4 @@ package portforwarding
 //@   ensures out != nil ==> len(out) >= 4 && len(out) - 4 <= 65535 && out[1] == uint8(fwdType) && out[2] == uint8((len(out) - 4) >> 8) && out[3] == uint8(len(out) - 4)
 //@   ensures out != nil ==> out[0] == 1 || out[0] == 2 || out[0] == 3
 //@   ensures out != nil && out[0] != 3 ==> called(net.JoinHostPort) && bytes(out[4:]) == bytes(resultof(net.JoinHostPort, hp))
+//@   ensures out != nil && out[0] != 3 ==> callcount(strconv.Itoa) == 1 && same(argof(net.JoinHostPort, port), resultof(strconv.Itoa, result))
